@@ -19,8 +19,8 @@ from .loader import Repo, Unsupported, ModuleInfo
 from .values import *  # noqa: F401,F403
 from .values import (
     V, VInt, VReal, VBool, VStr, VBytes, NONE, VNoneT, VTuple, VObj, VList, VSeq, VDict, VMap,
-    VFunc, VCoro, VExt, VClass, VModule, VOpaque, VExc, PyRaise, ReturnSig, BreakSig,
-    ContinueSig, PathEnd, Infeasible, exc_is_subclass, exc_canon, EXC_PARENTS,
+    VFunc, VCoro, VExt, VClass, VModule, VOpaque, VExc, PyRaise, ReturnSig, BreakSig, VLazyOpt,
+    ContinueSig, PathEnd, Infeasible, exc_is_subclass, exc_canon, EXC_PARENTS, VLazy,
 )
 
 FEAS_TIMEOUT_MS = 400
@@ -102,6 +102,8 @@ class Ctx:
         self.notes: list[str] = []
         self.call_depth = 0
         self.lemmas_done: set = set()
+        self.lazy_cache: dict = {}
+        self._lazy_keep: list = []
 
     # ---- decisions -------------------------------------------------------------
     def choose(self, n: int, label: str) -> int:
@@ -169,9 +171,12 @@ class Ctx:
         taken = k == 0
         d = c if taken else z3.simplify(z3.Not(c))
         self.pc.append(d)
-        self.dec.append(d)
-        if not self.feasible():
-            raise Infeasible()
+        if is_cheap(d):
+            # only string-free decisions take part in path pruning (string queries are slow and
+            # rarely prune); a path that is infeasible for string reasons yields vacuous obligations
+            self.dec.append(d)
+            if not self.feasible():
+                raise Infeasible()
         return taken
 
     def oblige(self, name: str, goal, info=None):
@@ -212,11 +217,53 @@ class Ctx:
     def getf(self, obj: VObj, name: str):
         return self.heap[obj.oid].get(name)
 
+    def peekf(self, obj: VObj, name: str):
+        """Field value without materialising lazy values (for specifications)."""
+        return self.heap[obj.oid].get(name)
+
+    def getff(self, obj: VObj, name: str):
+        """Field value, materialised."""
+        return self.force(self.heap[obj.oid].get(name))
+
+    def force(self, v):
+        """Materialise a lazy union value (forks the path on the alternative)."""
+        while isinstance(v, VLazy):
+            k = id(v)
+            if k not in self.lazy_cache:
+                chosen = None
+                for i, (cond, maker) in enumerate(v.alts):
+                    last = i == len(v.alts) - 1
+                    if last or self.branch(cond, f"{v.hint}:alt{i}"):
+                        if last:
+                            self.assume(cond)
+                        chosen = maker(self)
+                        break
+                self.lazy_cache[k] = chosen
+                self._lazy_keep.append(v)
+            v = self.lazy_cache[k]
+        return v
+
     def setf(self, obj: VObj, name: str, val: V):
         self.heap[obj.oid][name] = val
 
     def items(self, lst):
         return self.heap[lst.oid]["items"]
+
+    def clone(self):
+        """Copy of the path state (for side explorations whose forks must not multiply the path)."""
+        c = Ctx(self.engine, [d[0] for d in self.decisions], self.func_label)
+        c.decisions = list(self.decisions)
+        c.pc = list(self.pc)
+        c.dec = list(self.dec)
+        c.heap = self.snapshot()
+        c.next_oid = self.next_oid
+        c.counters = dict(self.counters)
+        c.ghost = dict(self.ghost)
+        c.call_depth = self.call_depth
+        c.lemmas_done = set(self.lemmas_done)
+        c.lazy_cache = dict(self.lazy_cache)
+        c._lazy_keep = list(self._lazy_keep)
+        return c
 
     def snapshot(self):
         return {oid: dict(f) if "items" not in f else {"items": copy.copy(f["items"])} for oid, f in self.heap.items()}
@@ -399,7 +446,9 @@ class Engine:
             old = Old(ctx.snapshot())
             fr = Frame(mod, label, cls_qual)
             try:
-                res = self.run_body(ctx, fr, fn, args, kwargs)
+                res = ctx.force(self.run_body(ctx, fr, fn, args, kwargs))
+                if isinstance(res, VTuple):
+                    res = VTuple([ctx.force(x) for x in res.items])
                 outcome = ("return", res)
             except PyRaise as e:
                 outcome = ("raise", e.exc)
@@ -601,7 +650,7 @@ class Engine:
             # nonlocal writes are not in the subset; a nested def assigns its own locals
             fr.locals[target.id] = v
         elif isinstance(target, ast.Attribute):
-            obj = self.eval(ctx, fr, target.value)
+            obj = ctx.force(self.eval(ctx, fr, target.value))
             if isinstance(obj, VObj):
                 hook = self.models.get(("setattr", obj.cls, target.attr))
                 if hook:
@@ -618,13 +667,14 @@ class Engine:
             for t, x in zip(target.elts, items):
                 self.assign(ctx, fr, t, x)
         elif isinstance(target, ast.Subscript):
-            obj = self.eval(ctx, fr, target.value)
-            key = self.eval(ctx, fr, target.slice)
+            obj = ctx.force(self.eval(ctx, fr, target.value))
+            key = ctx.force(self.eval(ctx, fr, target.slice))
             self.setitem(ctx, obj, key, v, target)
         else:
             raise Unsupported(f"assignment target {type(target).__name__}")
 
     def iter_concrete(self, ctx, v, node):
+        v = ctx.force(v)
         if isinstance(v, VTuple):
             return list(v.items)
         if isinstance(v, VList):
@@ -682,7 +732,7 @@ class Engine:
             if cur is None:
                 raise Unsupported("bare raise outside handler")
             raise PyRaise(cur)
-        v = self.eval(ctx, fr, s.exc)
+        v = ctx.force(self.eval(ctx, fr, s.exc))
         if isinstance(v, VExc):
             raise PyRaise(v)
         if isinstance(v, VExt) or isinstance(v, VClass):
@@ -804,7 +854,7 @@ class Engine:
         if len(s.items) != 1:
             raise Unsupported("with: several items")
         item = s.items[0]
-        cm = self.eval(ctx, fr, item.context_expr)
+        cm = ctx.force(self.eval(ctx, fr, item.context_expr))
         enter = self.models.get(("with", getattr(cm, "cls", None) or getattr(cm, "dotted", None) or cm.kind))
         if enter is None:
             raise Unsupported(f"with on {cm!r} line {s.lineno}")
@@ -858,7 +908,7 @@ class Engine:
     def s_For(self, ctx, fr, s):
         text = self.repo.source_segment(fr.mod, s.iter)
         key, spec = self.loop_spec(fr, text, s)
-        it = self.eval(ctx, fr, s.iter)
+        it = ctx.force(self.eval(ctx, fr, s.iter))
         if isinstance(it, VObj) and ("iter", it.cls) in self.models:
             it = self.models[("iter", it.cls)](ctx, it)
         after_ord = None
@@ -1026,6 +1076,19 @@ class Engine:
 
     def truthy_z(self, ctx, v):
         """Truth value as python bool (concrete) or z3 Bool."""
+        if isinstance(v, VLazy):
+            if id(v) in ctx.lazy_cache:
+                return self.truthy_z(ctx, ctx.lazy_cache[id(v)])
+            parts = []
+            n0 = len(ctx.decisions)
+            for cond, maker in v.alts:
+                t = self.truthy_z(ctx, maker(ctx))
+                if t is False:
+                    continue
+                parts.append(cond if t is True else z3.And(cond, t))
+            if len(ctx.decisions) != n0:
+                return self.truthy_z(ctx, ctx.force(v))
+            return z3.Or(*parts) if parts else False
         if isinstance(v, VBool):
             return v.z
         if isinstance(v, VInt):
@@ -1107,6 +1170,8 @@ class Engine:
             return VExt("builtins." + name)
         if name in EXC_PARENTS:
             return VExt("builtins." + name)
+        if name in ("bytes", "bytearray", "tuple", "object", "frozenset", "memoryview"):
+            return VExt("builtins." + name)   # type names (isinstance checks)
         raise Unsupported(f"name {name} in {mod.name} line {getattr(node, 'lineno', '?')}")
 
     def resolve_import(self, modname: str, attr: str) -> V:
@@ -1141,6 +1206,7 @@ class Engine:
 
     def getattr(self, ctx, obj, attr, node=None) -> V:
         line = getattr(node, "lineno", "?")
+        obj = ctx.force(obj)
         if isinstance(obj, VObj):
             v = ctx.getf(obj, attr)
             if v is not None:
@@ -1361,8 +1427,64 @@ class Engine:
         return self.eval(ctx, Frame(mod, qual), default)
 
     # ---- calls -------------------------------------------------------------------
+    def side_explore(self, ctx, run):
+        """Run `run(clone)` on clones of ctx for every decision vector of its own forks; the main path
+        does not fork.  Used for expressions whose value is discarded (logging arguments)."""
+        base = len(ctx.decisions)
+        stack = [[]]
+        n = 0
+        while stack:
+            sub = stack.pop()
+            c2 = ctx.clone()
+            c2.prefix = c2.prefix + sub
+            try:
+                run(c2)
+            except (Infeasible, PathEnd):
+                pass
+            n += 1
+            if n > 512:
+                raise Unsupported("side exploration: too many paths")
+            for i in range(base + len(sub), len(c2.decisions)):
+                ch, k, _ = c2.decisions[i]
+                for alt in range(ch + 1, k):
+                    stack.append([d[0] for d in c2.decisions[base:i]] + [alt])
+
+    def discarded_call(self, ctx, fr, e):
+        """logger.<level>(...): the arguments are evaluated (an exception hidden in them is seen), their
+        value and their internal forks are dropped."""
+        raised = []
+
+        def run(c2):
+            try:
+                for a in e.args:
+                    self.eval(c2, fr, a)
+                for k in e.keywords:
+                    self.eval(c2, fr, k.value)
+            except PyRaise as ex:
+                raised.append(ex.exc)
+        n0 = len(ctx.decisions)
+        # cheap case first: arguments that evaluate without any fork
+        c1 = ctx.clone()
+        try:
+            run(c1)
+            if len(c1.decisions) == n0 and not raised:
+                return NONE
+        except (Infeasible, PathEnd):
+            pass
+        raised.clear()
+        self.side_explore(ctx, run)
+        if raised:
+            # an argument can raise: evaluate on the main path so that the exception is accounted for
+            for a in e.args:
+                self.eval(ctx, fr, a)
+            for k in e.keywords:
+                self.eval(ctx, fr, k.value)
+        return NONE
+
     def e_Call(self, ctx, fr, e):
         fv = self.eval(ctx, fr, e.func)
+        if isinstance(fv, VExt) and (fv.dotted.startswith("logger.") or fv.dotted == "builtins.print"):
+            return self.discarded_call(ctx, fr, e)
         args = []
         for a in e.args:
             if isinstance(a, ast.Starred):
@@ -1378,8 +1500,16 @@ class Engine:
 
     def call_value(self, ctx, fr, fv, args, kwargs, node=None):
         line = getattr(node, "lineno", "?")
+        fv = ctx.force(fv)
         if isinstance(fv, VFunc):
+            if not hasattr(fv, "qual") and not hasattr(fv, "node"):
+                # environment model / builtin method: needs materialised arguments
+                args = [ctx.force(a) for a in args]
+                kwargs = {k: ctx.force(v) for k, v in kwargs.items()}
             return fv.fn(ctx, args, kwargs)
+        if isinstance(fv, VExt):
+            args = [ctx.force(a) for a in args]
+            kwargs = {k: ctx.force(v) for k, v in kwargs.items()}
         if isinstance(fv, VExt):
             if fv.dotted.startswith("logger.") or fv.dotted == "builtins.print":
                 return NONE
@@ -1400,7 +1530,7 @@ class Engine:
         raise Unsupported(f"call of {fv!r} line {line} of {fr.qual}")
 
     def e_Await(self, ctx, fr, e):
-        v = self.eval(ctx, fr, e.value)
+        v = ctx.force(self.eval(ctx, fr, e.value))
         hook = self.models.get("await-hook")
         if hook:
             hook(ctx, fr, v)
@@ -1452,7 +1582,7 @@ class Engine:
             v = self.eval(ctx, fr, e.operand)
             t = self.truthy_z(ctx, v)
             return VBool(not t) if isinstance(t, bool) else VBool(z3.Not(t))
-        v = self.eval(ctx, fr, e.operand)
+        v = ctx.force(self.eval(ctx, fr, e.operand))
         if isinstance(e.op, ast.USub):
             if isinstance(v, VInt):
                 return VInt(-v.z)
@@ -1527,6 +1657,7 @@ class Engine:
         return v
 
     def binop(self, ctx, op, a, b, node=None):
+        a, b = ctx.force(a), ctx.force(b)
         a, b = self.num(a), self.num(b)
         if isinstance(a, (VInt, VReal)) and isinstance(b, (VInt, VReal)):
             real = isinstance(a, VReal) or isinstance(b, VReal)
@@ -1617,6 +1748,12 @@ class Engine:
         raise Unsupported(f"== on {a!r}, {b!r}")
 
     def compare(self, ctx, op, a, b, node):
+        if isinstance(op, (ast.Is, ast.IsNot)) and (isinstance(a, VNoneT) or isinstance(b, VNoneT)):
+            other = b if isinstance(a, VNoneT) else a
+            if isinstance(other, VLazy) and id(other) not in ctx.lazy_cache and hasattr(other, "present"):
+                r = z3.Not(other.present)
+                return r if isinstance(op, ast.Is) else z3.Not(r)
+        a, b = ctx.force(a), ctx.force(b)
         if isinstance(op, ast.Eq):
             return self.eq(ctx, a, b)
         if isinstance(op, ast.NotEq):
@@ -1654,6 +1791,7 @@ class Engine:
         raise Unsupported(f"compare {type(op).__name__}")
 
     def contains(self, ctx, container, item, node):
+        container, item = ctx.force(container), ctx.force(item)
         if isinstance(container, (VStr, VBytes)) and container.kind == item.kind:
             return z3.Contains(container.z, item.z)
         if isinstance(container, (VList, VTuple)):
@@ -1691,6 +1829,7 @@ class Engine:
         return self.getitem(ctx, obj, key, e)
 
     def slice(self, ctx, obj, lo, hi, node):
+        obj, lo, hi = ctx.force(obj), ctx.force(lo) if lo is not None else None, ctx.force(hi) if hi is not None else None
         if isinstance(obj, (VStr, VBytes)):
             n = z3.Length(obj.z)
             lz = lo.z if lo is not None else z3.IntVal(0)
@@ -1712,6 +1851,7 @@ class Engine:
         raise Unsupported(f"slice of {obj!r}")
 
     def getitem(self, ctx, obj, key, node):
+        obj, key = ctx.force(obj), ctx.force(key)
         if isinstance(obj, (VList, VTuple)):
             items = self.iter_concrete(ctx, obj, node)
             k = z3.simplify(key.z) if isinstance(key, VInt) else None
@@ -1731,6 +1871,12 @@ class Engine:
             return self.models[("map", "__getitem__")](ctx, obj, key)
         if isinstance(obj, VSeq) and isinstance(key, VInt):
             return obj.item(ctx, key.z)
+        if isinstance(obj, VStr) and isinstance(key, VInt):
+            k = z3.simplify(key.z)
+            if z3.is_int_value(k) and k.as_long() >= 0:
+                if ctx.branch(z3.Length(obj.z) > k, f"str-index@{node.lineno}:in-range"):
+                    return VStr(z3.SubString(obj.z, k, 1))
+                raise PyRaise(VExc("IndexError", VStr("string index out of range"), origin=f"index@{node.lineno}"))
         hook = self.models.get(("getitem", getattr(obj, "cls", None) or getattr(obj, "sort", None) or obj.kind))
         if hook:
             return hook(ctx, obj, key)
@@ -1769,12 +1915,16 @@ class Engine:
         return VStr(z3.Concat(*parts))
 
     def to_str(self, ctx, v) -> VStr:
+        v = ctx.force(v)
         if isinstance(v, VStr):
             return v
         if isinstance(v, VInt):
             hook = self.models.get("int-to-str-lemma")
             if hook:
                 hook(ctx, v.z)
+            vz = z3.simplify(v.z)
+            if (z3.is_int_value(vz) and vz.as_long() >= 0) or self.models["prove-nonneg-cheap"](ctx, v.z):
+                return VStr(z3.IntToStr(v.z))
             return VStr(z3.If(v.z >= 0, z3.IntToStr(v.z), z3.Concat(z3.StringVal("-"), z3.IntToStr(-v.z))))
         if isinstance(v, VBool):
             return VStr(z3.If(v.z, z3.StringVal("True"), z3.StringVal("False")))
